@@ -285,6 +285,12 @@ func fieldRecs(fd protoreflect.FieldDescriptor, o WireOpt) []Rec {
 		}
 		add("entry{}", cat(tag(n, protowire.BytesType), lenPrefixed(nil)))
 		add("entry{k}", cat(tag(n, protowire.BytesType), lenPrefixed(key)))
+		if len(vals) >= 2 {
+			// the value field twice inside one entry: message values merge, scalar values: last wins
+			a, b := vals[0], vals[len(vals)-1]
+			add("entry{k,v="+a.Name+",v="+b.Name+"}", cat(tag(n, protowire.BytesType), lenPrefixed(cat(key, a.B, b.B))))
+			add("entry{k,v="+b.Name+",v="+a.Name+"}", cat(tag(n, protowire.BytesType), lenPrefixed(cat(key, b.B, a.B))))
+		}
 		for i, v := range vals {
 			add("entry{k,v="+v.Name+"}", cat(tag(n, protowire.BytesType), lenPrefixed(cat(key, v.B))))
 			if i == 0 {
